@@ -1,6 +1,7 @@
 /- driver ops for property C20 (model side of the correspondence) -/
 import Rsa.Core.Wire
 import Rsa.Core.Importers
+import Rsa.Core.C20Syntax
 
 open Lean Rsa.Wire Rsa.Importers
 
@@ -20,8 +21,8 @@ def ofEnt (e : BidsEnt) : Json :=
 /-- a path and its own deconstruction (what a `BidsFile(path)` would hold) -/
 def pathAndEnt (modSet : Bool) (p : Str) : Json :=
   if !modSet then exc "AttributeError"
-  else match bidsParse p with
-    | .ok e => obj [("path", ofS p), ("ent", ofEnt e), ("modality_set", Json.bool (modalitySet p))]
+  else match Src.bidsParse p with
+    | .ok e => obj [("path", ofS p), ("ent", ofEnt e), ("modality_set", Json.bool (Src.modalitySet p))]
     | .error err => obj [("path", ofS p), ("exc", Json.str err)]
 
 /-- parse a relative path, rebuild it, run the look-ups -/
@@ -29,18 +30,18 @@ def bids (j : Json) : R Json := do
   let p ← fld j "path" >>= asS
   let desc ← fld j "desc" >>= asS
   let suffix ← fld j "suffix" >>= asS
-  match bidsParse p with
+  match Src.bidsParse p with
   | .error e => pure (exc e)
   | .ok b =>
-    let ms := modalitySet p
+    let ms := Src.modalitySet p
     pure (obj [
       ("ent", ofEnt b), ("modality_set", Json.bool ms),
-      ("rebuilt", pathAndEnt ms (bidsReplace b {})),
-      ("meta", pathAndEnt ms (findMetaFor b)),
-      ("events", pathAndEnt ms (findEventsFor b)),
-      ("table", pathAndEnt ms (findTableSiblingOf b desc suffix)),
-      ("mri", pathAndEnt ms (findMriSiblingOf b desc suffix)),
-      ("key", ofS (findTableKeyFor b))])
+      ("rebuilt", pathAndEnt ms (Src.bidsReplace b {})),
+      ("meta", pathAndEnt ms (Src.findMetaFor b)),
+      ("events", pathAndEnt ms (Src.findEventsFor b)),
+      ("table", pathAndEnt ms (Src.findTableSiblingOf b desc suffix)),
+      ("mri", pathAndEnt ms (Src.findMriSiblingOf b desc suffix)),
+      ("key", ofS (Src.findTableKeyFor b))])
 
 def ofInfo (i : MInfo) : Json :=
   obj [("version", ofS i.version), ("experiment_name", ofS i.experiment),
@@ -53,7 +54,7 @@ def ofInfo (i : MInfo) : Json :=
 def meadowsName (j : Json) : R Json := do
   let p ← fld j "fpath" >>= asS
   let pets ← fld j "petnames" >>= asList asS
-  match meadowsSegments pets p with
+  match Src.meadowsSegments pets p with
   | .ok i => pure (ofInfo i)
   | .error e => pure (exc e)
 
@@ -85,13 +86,13 @@ def meadowsLoad (j : Json) : R Json := do
   let p ← fld j "fpath" >>= asS
   let pets ← fld j "petnames" >>= asList asS
   let sort ← fld j "sort" >>= asBool
-  match meadowsSegments pets p with
+  match Src.meadowsSegments pets p with
   | .error e => pure (exc e)
   | .ok info =>
     let comps : Except String (Comps Rat) ←
       if info.filetype == sMat then do
         let vars ← fld j "vars" >>= asList asVar
-        pure (compsMat info vars)
+        pure (compsMat info (loadmatVars vars))
       else if info.filetype == sJsonExt then do
         let tasks ← asOpt (asList asTask) (fldD j "tasks" Json.null)
         pure (compsJson info tasks)
@@ -109,39 +110,52 @@ def mne (j : Json) : R Json := do
   let data ← fld j "data" >>= asList (asList (asList asRat))
   let ev ← fld j "events" >>= asList asTriple
   let ch ← fld j "ch" >>= asList asS
-  let times ← fld j "times" >>= asList asRat
-  let d := fromEpochs data ev ch times
+  let first ← fld j "first" >>= asInt
+  let sfreq ← fld j "sfreq" >>= asRat
+  let nT ← fld j "n_times" >>= asNat
+  let keep ← asOpt (asList asInt) (fldD j "select" Json.null)
+  let (data, ev) := match keep with
+    | some ks => selectEpochs (fun c => ks.contains c) data ev
+    | none => (data, ev)
+  let d := fromEpochs data ev ch (epochTimes first sfreq nT)
   pure (obj [("measurements", ofList (ofList (ofList ofRat)) d.measurements),
              ("event", ofList ofInt d.event), ("channel", ofList ofS d.channel),
              ("time", ofList ofRat d.time)])
 
 def mneName (j : Json) : R Json := do
   let f ← fld j "fname" >>= asS
-  let (s, r, t) := mneDescriptors f
-  pure (obj [("sub", ofOS s), ("run", ofOS r), ("task", ofOS t)])
+  pure (obj ((Src.mneDescriptors f).map (fun kv => (String.ofList kv.1, ofOS kv.2))))
 
 def asEvent (j : Json) : R (Str × Rat) := do
   match ← asArr j with
   | [t, o] => pure (← asS t, ← asRat o)
   | _ => throw "event must be [trial_type, onset]"
 
-def asTableRow (j : Json) : R (List Rat × List Rat) := do
+def asPair (j : Json) : R (Rat × Rat) := do
   match ← asArr j with
-  | [o, c] => pure (← asList asRat o, ← asList asRat c)
-  | _ => throw "table row must be [onsets, column]"
+  | [x, v] => pure (← asRat x, ← asRat v)
+  | _ => throw "table row must be [x, P(x)]"
 
-/-- `make_design_matrix` after the convolution; `table` maps the onsets of a condition to
-    its convolved column (the scipy contract) -/
+/-- `make_design_matrix` from the events on; `ptable` tabulates the interpolant `P` of the
+    resampled response at the arguments the model asks for (the scipy contract), `resp_len` is
+    the number of samples of that response -/
 def dm (j : Json) : R Json := do
   let events ← fld j "events" >>= asList asEvent
-  let table ← fld j "table" >>= asList asTableRow
   let cf ← asOpt (asList (asList (asOpt asRat))) (fldD j "confounds" Json.null)
   let nVols ← fld j "n_vols" >>= asNat
-  let hrfCol : List Rat → List Rat := fun ons =>
-    match table.find? (fun r => r.1 == ons) with
-    | some r => r.2
-    | none => []
-  match designFromEvents events hrfCol cf nVols with
+  let tr ← fld j "tr" >>= asRat
+  let respLen ← fld j "resp_len" >>= asNat
+  let ptable ← fld j "ptable" >>= asList asPair
+  let tab := ptable.toArray.qsort (fun a b => a.1 < b.1)
+  -- binary search; an argument missing from the table gives a value no column can contain
+  let P : Rat → Rat := fun x => Id.run do
+    let mut lo := 0
+    let mut hi := tab.size
+    while lo < hi do
+      let mid := (lo + hi) / 2
+      if tab[mid]!.1 < x then lo := mid + 1 else hi := mid
+    if h : lo < tab.size then (if tab[lo].1 == x then tab[lo].2 else 424242) else 424242
+  match designMatrix events P respLen tr cf nVols with
   | .error e => pure (exc e)
   | .ok d => pure (obj [("cols", ofList (ofList ofRat) d.cols),
                         ("mask", ofList Json.bool d.mask), ("dof", ofInt d.dof)])
@@ -189,33 +203,37 @@ def spmResid (j : Json) : R Json := do
 def relocateOp (j : Json) : R Json := do
   let base ← fld j "base" >>= asS
   let f ← fld j "fpath" >>= asS
-  pure (ofS (relocate base f))
+  pure (ofS (Src.relocate base f))
 
 def ofDescs (l : List (Str × Option Str)) : Json :=
   obj (l.map (fun kv => (String.ofList kv.1, ofOS kv.2)))
 
 /-- one fMRIPrep run found in the tree: entities, dataset descriptors, the files its accessors read -/
-def runView (p : Str) : Json :=
-  match bidsParse p with
+def runView (cfNames : Option (List Str)) (cfTable : List Str) (p : Str) : Json :=
+  match Src.bidsParse p with
   | .error e => obj [("path", ofS p), ("exc", Json.str e)]
   | .ok b =>
-    obj [("path", ofS p), ("ent", ofEnt b), ("descriptors", ofDescs (datasetDescriptors b)),
-         ("meta", ofS (findMetaFor b)), ("events", ofS (findEventsFor b)),
-         ("confounds", ofS (findTableSiblingOf b "confounds".toList "timeseries".toList)),
-         ("mask", ofS (findMriSiblingOf b "brain".toList "mask".toList)),
-         ("parc", ofS (findMriSiblingOf b "aparcaseg".toList "dseg".toList)),
-         ("key", match bidsParse (findMriSiblingOf b "aparcaseg".toList "dseg".toList) with
-                 | .ok pb => ofS (findTableKeyFor pb)
+    obj [("path", ofS p), ("ent", ofEnt b), ("descriptors", ofDescs (Src.datasetDescriptors b)),
+         ("meta", ofS (Src.findMetaFor b)), ("events", ofS (Src.findEventsFor b)),
+         ("confounds", ofS (Src.confoundsOf b)),
+         ("confound_cols", match selectConfounds Src.confoundDefault cfNames
+                              (cfTable.map (fun n => (n, n))) with
+                           | .ok cols => ofList ofS (cols.map (·.2))
+                           | .error e => exc e),
+         ("mask", ofS (Src.maskOf b)),
+         ("parc", ofS (Src.parcOf b)),
+         ("key", match Src.bidsParse (Src.parcOf b) with
+                 | .ok pb => ofS (Src.findTableKeyFor pb)
                  | .error e => exc e),
          ("repr", ofS (reprPath p))]
 
 /-- `find_fmriprep_runs` on a listed tree -/
 def tree (j : Json) : R Json := do
   let files ← fld j "files" >>= asList asS
-  let deriv ← fld j "derivative" >>= asS
-  let desc ← fld j "desc" >>= asS
   let tasks ← asOpt (asList asS) (fldD j "tasks" Json.null)
-  pure (ofList runView (findDerivativeFiles files deriv desc tasks))
+  let cfNames ← asOpt (asList asS) (fldD j "cf_names" Json.null)
+  let cfTable ← fld j "cf_table" >>= asList asS
+  pure (ofList (runView cfNames cfTable) (Src.fmriprepRuns files tasks))
 
 /-- `get_info_from_spm_mat` (names, raw files) and the `reg_of_interest` selections -/
 def spmInfo (j : Json) : R Json := do
@@ -225,24 +243,31 @@ def spmInfo (j : Json) : R Json := do
   let path ← fld j "path" >>= asS
   let betaFiles ← fld j "beta_files" >>= asList asS
   let reg ← fld j "reg" >>= asList asInt
-  match names.mapM parseRegName with
+  match names.mapM Src.parseRegName with
   | .error e => pure (exc e)
   | .ok parsed =>
     let runNo := parsed.map (·.1)
     let bnames := parsed.map (·.2)
     pure (obj [
       ("run_number", ofList ofNat runNo), ("beta_names", ofList ofS bnames),
-      ("rawdata_files", ofList ofS (raw.map (relocate base))),
+      ("rawdata_files", ofList ofS (raw.map (Src.relocate base))),
       ("betas_files", ofList (ofOpt ofS)
         ((selectBetas betaFiles reg).map (fun o => o.map (fun f => path ++ '/' :: f)))),
+      ("betas_images", ofList (ofOpt ofS) (betaImages path betaFiles reg)),
+      ("betas_data_images", ofList (ofOpt ofS) (splitBetas (betaImages path betaFiles reg)).1),
+      ("betas_resms_image", ofOpt (ofOpt ofS) (splitBetas (betaImages path betaFiles reg)).2),
       ("betas_reg_name", ofList (ofOpt ofS) (selectBetas bnames reg)),
       ("betas_run_number", ofList (ofOpt ofNat) (selectBetas runNo reg)),
       ("resid_reg_name", ofList (ofOpt ofS) (selectResiduals bnames reg)),
       ("resid_run_number", ofList (ofOpt ofNat) (selectResiduals runNo reg)),
       ("resid_rows", ofList (ofOpt ofNat) (selectResiduals (List.range names.length) reg))])
 
+/-- the tabulated HRF (units of 1e-7) as regenerated from `io/hrf.py` -/
+def hrfTableOp (_ : Json) : R Json := pure (ofList ofInt hrfTable)
+
 def handle : Handler := fun op j =>
   match op with
+  | "c20.hrf_table" => some (hrfTableOp j)
   | "c20.bids" => some (bids j)
   | "c20.meadows_name" => some (meadowsName j)
   | "c20.meadows_load" => some (meadowsLoad j)
